@@ -547,7 +547,7 @@ class TypeTransformer:
                 continue
 
         # a trailing UTC offset, positive or negative (+05:30 / -0500 / " +0800")
-        offset = re.search(r'( ?)[+-]\d{2}:?\d{2}(:\d{2})?$', str(data))
+        offset = re.search(r'( ?)[+-]\d{2}:?\d{2}(:\d{2}(\.\d{1,6})?)?$', str(data))
         if offset:
             for f in formats:
                 try:
